@@ -122,7 +122,7 @@ def expand(acc, batch, last=False, meta=None):
 
 
 QUICK = [("shortcut", "slurm", 6), ("shortcut", "lsf", 5), ("diamond", "slurm", 7), ("fork", "sge", 7), ("diamond", "lsf", 6), ("chain", "slurm", 7), ("diamond", "sge", 6)]
-THOROUGH = [(wf, be, 6 if wf != "diamond" else 5) for wf in ("fork", "chain", "diamond", "shortcut") for be in ("slurm", "sge", "lsf")]
+THOROUGH = [(wf, be, 9 if wf != "diamond" else 8) for wf in ("fork", "chain", "diamond", "shortcut") for be in ("slurm", "sge", "lsf")]
 
 
 def run(ctx):
